@@ -98,8 +98,17 @@ def next (o : Opts) (s : St) (w : Wait) : St × Out :=
     | .closerFires => ({ s with closed := true }, .halted)
     | .ctxFires => ({ s with cancelled := true }, .halted)
 
-/-- `NextCh()`: the counter is incremented *before* the bound check and before `retryIn`. -/
+/-- `NextCh()` as repaired (fix: 7aa7712): like `Next`, the bound is checked against, and the wait
+drawn from, the number of retries made so far; only then is the new one counted. -/
 def nextCh (o : Opts) (s : St) (u : Rat) : St × Out :=
+  if s.isReset then ({ s with isReset := false }, .chClosed)
+  else if 0 < o.maxRetries ∧ o.maxRetries ≤ (s.attempt : Int) then
+    ({ s with attempt := s.attempt + 1 }, .chNil)
+  else ({ s with attempt := s.attempt + 1, waited := s.waited + 1 }, .chTimer s.attempt u)
+
+/-- `NextCh()` as the pinned commit had it: the counter is incremented *before* the bound check
+and before `retryIn`, so the wait in front of attempt k+1 used exponent k+1. -/
+def nextChOld (o : Opts) (s : St) (u : Rat) : St × Out :=
   if s.isReset then ({ s with isReset := false }, .chClosed)
   else if 0 < o.maxRetries ∧ o.maxRetries < ((s.attempt + 1 : Nat) : Int) then
     ({ s with attempt := s.attempt + 1 }, .chNil)
@@ -153,22 +162,38 @@ structure WmaRes where
   result : Option Bool       -- `some true`: returned nil; `some false`: returned an error; `none`: still looping
 deriving Repr, DecidableEq
 
-def wmaLoop (o : Opts) (s : St) (calls : Nat) : List (Wait × Bool) → WmaRes
+/-- the loop as repaired (fix: 00a346b, 2a10cc6): `for …; calls < n && r.Next(); calls++`, and a
+loop left without any call returns a non-nil error whether or not the context is cancelled. -/
+def wmaLoop (o : Opts) (n : Int) (s : St) (calls : Nat) : List (Wait × Bool) → WmaRes
   | [] => { calls := calls, succeeded := false, result := none }
   | (w, ok) :: env =>
-    if (next o s w).2.isYield then
+    if (calls : Int) < n ∧ (next o s w).2.isYield = true then
       if ok then { calls := calls + 1, succeeded := true, result := some true }
-      else wmaLoop o (next o s w).1 (calls + 1) env
+      else wmaLoop o n (next o s w).1 (calls + 1) env
     else
-      -- loop left: `err` is the last error; with no call at all it is
-      -- `errors.Wrap(ctx.Err(), …)`, which is nil when the context is not cancelled
-      { calls := calls, succeeded := false,
-        result := some (calls == 0 && !(next o s w).1.cancelled) }
+      -- loop left: `err` is the last error, or "did not run function" when there was no call
+      { calls := calls, succeeded := false, result := some false }
 
 /-- `WithMaxAttempts(ctx, opts, n, fn)`; `closed`/`cancelled`: closer / context fired before the call. -/
 def withMaxAttempts (o : Opts) (n : Int) (closed cancelled : Bool) (env : List (Wait × Bool)) : WmaRes :=
   if n ≤ 0 then { calls := 0, succeeded := false, result := some false }
-  else wmaLoop { o with maxRetries := n - 1 } (start closed cancelled) 0 env
+  else wmaLoop { o with maxRetries := n - 1 } n (start closed cancelled) 0 env
+
+/-- the loop as the pinned commit had it: only `Next` bounds it (`MaxRetries = n − 1`, and 0 means
+unbounded), and with no call at all the result is `errors.Wrap(ctx.Err(), …)`, nil for a live context. -/
+def wmaLoopOld (o : Opts) (s : St) (calls : Nat) : List (Wait × Bool) → WmaRes
+  | [] => { calls := calls, succeeded := false, result := none }
+  | (w, ok) :: env =>
+    if (next o s w).2.isYield then
+      if ok then { calls := calls + 1, succeeded := true, result := some true }
+      else wmaLoopOld o (next o s w).1 (calls + 1) env
+    else
+      { calls := calls, succeeded := false,
+        result := some (calls == 0 && !(next o s w).1.cancelled) }
+
+def withMaxAttemptsOld (o : Opts) (n : Int) (closed cancelled : Bool) (env : List (Wait × Bool)) : WmaRes :=
+  if n ≤ 0 then { calls := 0, succeeded := false, result := some false }
+  else wmaLoopOld { o with maxRetries := n - 1 } (start closed cancelled) 0 env
 
 /-- the property's clause on `WithMaxAttempts(n)`, on what a caller observes: number of calls of
 `fn`, whether nil was returned, whether some call of `fn` returned nil.  `stoppedBefore`: the
